@@ -915,23 +915,44 @@ theorem keysNodup_append_fresh {store : List Rec} (hs : KeysNodup store) (r : Re
   obtain ⟨x, hx, rfl⟩ := List.mem_map.mp ha
   rw [hb]; exact hf x hx
 
+theorem slotInv_stepSet {cfg : Cfg} {s : Slot} (hg : SlotGood cfg s) (st : St) (rq : SetReq)
+    (h : SlotInv s st) : SlotInv s (stepSet cfg st rq) := by
+  obtain ⟨hs, hp⟩ := h
+  simp only [stepSet]
+  cases hf : findKey rq.key st.store with
+  | none =>
+    have hfresh : ∀ x ∈ st.store, x.key ≠ (mergeRec cfg none rq).key := findKey_none hf
+    exact ⟨keysNodup_append_fresh hs _ hfresh, hp.insert hg _ hfresh⟩
+  | some o =>
+    have ho := (findKey_some hf).1
+    refine ⟨?_, hp.update hg hs o rq ho⟩
+    apply keysNodup_append_fresh (keysNodup_eraseKey _ _ hs)
+    intro x hx
+    exact ((mem_eraseKey _ _ hs x).mp hx).2
+
 theorem slotInv_step {cfg : Cfg} {s : Slot} (hg : SlotGood cfg s) (st : St) (op : Op)
     (h : SlotInv s st) : SlotInv s (step cfg st op) := by
-  obtain ⟨hs, hp⟩ := h
   cases op with
-  | set rq =>
-    simp only [step, stepSet]
-    cases hf : findKey rq.key st.store with
-    | none =>
-      have hfresh : ∀ x ∈ st.store, x.key ≠ (mergeRec cfg none rq).key := findKey_none hf
-      exact ⟨keysNodup_append_fresh hs _ hfresh, hp.insert hg _ hfresh⟩
-    | some o =>
-      have ho := (findKey_some hf).1
-      refine ⟨?_, hp.update hg hs o rq ho⟩
-      apply keysNodup_append_fresh (keysNodup_eraseKey _ _ hs)
-      intro x hx
-      exact ((mem_eraseKey _ _ hs x).mp hx).2
+  | set rq => exact slotInv_stepSet hg st rq h
+  | inc k d e =>
+    simp only [step, stepInc]
+    split
+    · exact h
+    split
+    · exact slotInv_stepSet hg st _ h
+    · split
+      · exact slotInv_stepSet hg st _ h
+      · split
+        · exact slotInv_stepSet hg st _ h
+        · exact h
+  | reload =>
+    obtain ⟨hs, _⟩ := h
+    refine ⟨?_, ?_⟩
+    · simp only [step, stepReload, KeysNodup, List.map_map]
+      exact hs
+    · intro hi; simp [step, stepReload] at hi
   | del k =>
+    obtain ⟨hs, hp⟩ := h
     simp only [step, stepDel]
     cases hf : findKey k st.store with
     | none => exact ⟨hs, hp⟩
@@ -941,6 +962,7 @@ theorem slotInv_step {cfg : Cfg} {s : Slot} (hg : SlotGood cfg s) (st : St) (op 
       · exact slotInv_init s
       · exact ⟨keysNodup_eraseKey _ _ hs, hp.erase hs k⟩
   | read q =>
+    obtain ⟨hs, hp⟩ := h
     simp only [step, stepBuild]
     split
     · exact ⟨hs, hp⟩
